@@ -70,6 +70,31 @@ CLAIMS = {
              "ell>3(8) as one congruence is outside (additivity + C04 wrap-freedom)",
         technique="CBMC symbolic execution of the real code, exported VC re-interpreted as integer polynomials with intervals (vcalg) + cvc5 QF_NIA identity checks; native replay",
         ref="DESIGN.md 4/C10"),
+    "C03": dict(
+        text="The real q120 NTT / iNTT (AVX2 code through the shim) is executed symbolically end to end on the real level metadata and power tables for "
+             "n in {1..64} (256 thorough) with every lane any 64-bit value; the exported VC is re-interpreted over the integers: each output lane is, modulo "
+             "its prime, exactly the linear form of the evaluation map at the n primitive 2n-th roots in some order (forward), its inverse (geometric columns "
+             "times n^-1), and the identity for ntt-then-intt; all lazy adds/subtracts/partial products carry discharged no-wrap obligations. The int64->residue "
+             "and centered CRT lift conversions are decided on all of int64 / all residues. Sizes above the bound are not claimed.",
+        note="cbmc 6.11 symex + vcalg integer domain; default 30-bit primes; level metadata/tables dumped from the real builder; n>64 (256) incl. the n=1024 schedule switch outside",
+        technique="CBMC symbolic execution of the real code, exported VC re-interpreted as integer linear forms with intervals (vcalg), congruence modulo each prime decided coefficient-wise; native replay",
+        ref="DESIGN.md 4/C03"),
+    "C04": dict(
+        text="Wrap-freedom of the lazy q120 arithmetic decided on the real code: NTT/iNTT end to end for n up to 64 (256) on all 64-bit lanes, and the ten "
+             "product kernels for ell in {0..3,100} (with congruence) and ell = 10000 = MAX_ELL (kernel loop unrolled 10000 times by CBMC's symbolic "
+             "execution, one streaming pass of the rigorous interval interpreter): every add, lazy subtraction and 32x32 partial-product operand stays inside "
+             "its word for every operand value of the a/b/c layouts; wrap-freedom at ell=10000 implies it for all smaller ell (monotone bounds).",
+        note="cbmc 6.11 symex + vcalg integer-interval domain; constants dumped from the real builders; 29/31-bit prime sets and the per-level induction to n=65536 outside",
+        technique="CBMC symbolic execution of the real code (loops fully unrolled), exported VC interpreted with rigorous integer intervals and explicit no-wrap obligations (vcalg); native replay on the all-maximal pattern",
+        ref="DESIGN.md 4/C04"),
+    "C17": dict(
+        text="Bit-precise bounded model checking of the reim4 block extract/save kernels (ref and AVX, all block indices, rows 0..3, strided) and of the "
+             "cplx<->reim4 conversion through the real init functions; and exact polynomial equality (vcalg real domain, no tolerance) of the dot products, "
+             "pointwise mul/addmul on reim, reim4 and interleaved-complex vectors (ref and FMA) and the windowed convolution with the complex-arithmetic "
+             "definition, for every length in the box including 0, with rounding radii reported.",
+        note="cbmc 6.11 + shim; m<=32 (64) for layouts, m<=16 for pointwise kernels, sizes<=3 for convolution; standard rounding model for the radii",
+        technique="CBMC bounded model checking (SAT) for data movement; CBMC symbolic execution + exported VC re-interpreted as exact real polynomials (vcalg) for the floating-point kernels; native replay",
+        ref="DESIGN.md 4/C17"),
 }
 
 NOT_YET = "check not built yet in this session (work in progress; see DESIGN.md section 4 for the plan)"
